@@ -82,6 +82,18 @@ def shaped(draw, tier):
             d["time"] = tg.iso(t) if kind == "datetime" else t.date().isoformat()
         data[draw(st.integers(0, len(data) - 1))]["time"] = tg.iso(leap) if kind == "datetime" else leap.date().isoformat()
         spec["domain"] = None
+    if spec.get("options_mode", "dict") == "dict" and draw(st.integers(0, 9)) < 2 and len(spec["data"]) <= 40:
+        # "any bounds": zero-width, inverted, ending at the origin, narrower than one label, upper bound only / lower bound only
+        lab = spec["opts"].setdefault("labella", {})
+        lo, hi = draw(st.sampled_from([(None, 0), (0, 0), (50, 50), (50.5, 50.5), (100, 20), (0, 1), (-30, 0), (10, None), (None, None), (None, 7), (0, 0.0)]))
+        for k, v in (("minPos", lo), ("maxPos", hi)):
+            if v is None and k == "maxPos":
+                lab.pop(k, None)
+            elif v is None and draw(st.booleans()):
+                lab.pop(k, None)
+            else:
+                lab[k] = v
+        spec["odd_bounds"] = True
     return spec
 
 
@@ -149,6 +161,10 @@ def classes(spec):
         out.append("bounds:maxPos")
     if "minPos" in lab and lab["minPos"] is None:
         out.append("bounds:minPos-none")
+    if spec.get("odd_bounds"):
+        out.append("bounds:degenerate-or-odd")
+        if lab.get("maxPos") is not None and lab.get("maxPos") == (lab.get("minPos") or 0):
+            out.append("bounds:zero-width")
     if spec.get("big"):
         out.append("big-%d-labels" % (len(data) // 100 * 100))
     return out
